@@ -243,6 +243,34 @@ class RenamedMetaCache(JsonCache):
 
 
 MSaver = _mk('MSaver', __name__, fields=('kind', 'n'), extra={'run': _saver_run}, cache=RenamedMetaCache())
+
+
+class TwoFileCache(JsonCache):
+    """A cache format that keeps one result in MORE THAN ONE file (head: everything but the payload;
+    payload), following the documented save_result / load_result contract: an overwrite that is
+    stopped between the two files leaves a mixture of a new and an old result on disk."""
+    KEY_PREFIX = 'two__'
+    HEAD_FILENAME = 'head.json'
+    PAYLOAD_FILENAME = 'payload.json'
+
+    def save_result(self, storage, task, result):
+        import json
+        from .universe import _to_json
+        with storage.file_handle(task.cache_key, self.HEAD_FILENAME, mode='w') as f:
+            json.dump(_to_json(result[:5]), f)
+        with storage.file_handle(task.cache_key, self.PAYLOAD_FILENAME, mode='w') as f:
+            json.dump(_to_json(result[5:]), f)
+
+    def load_result(self, storage, task):
+        import json
+        from .universe import _from_json
+        with storage.file_handle(task.cache_key, self.HEAD_FILENAME, mode='r') as f:
+            head = _from_json(json.load(f))
+        with storage.file_handle(task.cache_key, self.PAYLOAD_FILENAME, mode='r') as f:
+            return head + _from_json(json.load(f))
+
+
+TSaver = _mk('TSaver', __name__, fields=('kind', 'n'), extra={'run': _saver_run}, cache=TwoFileCache())
 USaver = _mk('USaver', __name__, fields=('kind', 'n', 'name'), extra={'run': _saver_run, 'name': 'é日本語-ü€'})     # a non-ASCII parameter value
 
 
